@@ -99,6 +99,9 @@ const (
 )
 
 func Parse(b []byte) (message util.Message, err error) {
+	if len(b) < 8 {
+		return nil, errors.New("the []byte is too short to hold an OpenFlow header")
+	}
 	switch b[1] {
 	case Type_Hello:
 		message = new(common.Hello)
@@ -263,8 +266,11 @@ func (p *PacketOut) MarshalBinary() (data []byte, err error) {
 }
 
 func (p *PacketOut) UnmarshalBinary(data []byte) error {
+	if len(data) < 24 {
+		return errors.New("the []byte is too short to unmarshal a PacketOut header")
+	}
 	err := p.Header.UnmarshalBinary(data)
-	n := p.Header.Len()
+	n := int(p.Header.Len())
 
 	p.BufferId = binary.BigEndian.Uint32(data[n:])
 	n += 4
@@ -275,15 +281,20 @@ func (p *PacketOut) UnmarshalBinary(data []byte) error {
 
 	n += 6 // for pad
 
-	for n < (n + p.ActionsLen) {
-		a, err := DecodeAction(data[n:])
+	end := n + int(p.ActionsLen)
+	if end > len(data) {
+		return errors.New("the PacketOut actions exceed the []byte")
+	}
+	for n < end {
+		a, err := DecodeAction(data[n:end])
 		if err != nil {
 			return err
 		}
 		p.Actions = append(p.Actions, a)
-		n += a.Len()
+		n += int(a.Len())
 	}
 
+	p.Data = util.NewBuffer(make([]byte, 0))
 	err = p.Data.UnmarshalBinary(data[n:])
 	return err
 }
@@ -361,8 +372,11 @@ func (p *PacketIn) MarshalBinary() (data []byte, err error) {
 }
 
 func (p *PacketIn) UnmarshalBinary(data []byte) error {
+	if len(data) < 24 {
+		return errors.New("the []byte is too short to unmarshal a PacketIn header")
+	}
 	err := p.Header.UnmarshalBinary(data)
-	n := p.Header.Len()
+	n := int(p.Header.Len())
 
 	p.BufferId = binary.BigEndian.Uint32(data[n:])
 	n += 4
@@ -378,8 +392,11 @@ func (p *PacketIn) UnmarshalBinary(data []byte) error {
 	if err := p.Match.UnmarshalBinary(data[n:]); err != nil {
 		return err
 	}
-	n += p.Match.Len()
+	n += int(p.Match.Len())
 
+	if len(data) < n+2 {
+		return errors.New("the []byte is too short to unmarshal the PacketIn padding")
+	}
 	copy(p.pad, data[n:])
 	n += 2
 
@@ -454,6 +471,9 @@ func (c *SwitchConfig) MarshalBinary() (data []byte, err error) {
 func (c *SwitchConfig) UnmarshalBinary(data []byte) error {
 	var err error
 	next := 0
+	if len(data) < 12 {
+		return errors.New("the []byte is too short to unmarshal a full SwitchConfig message")
+	}
 
 	err = c.Header.UnmarshalBinary(data[next:])
 	next += int(c.Header.Len())
@@ -506,6 +526,9 @@ func (e *ErrorMsg) MarshalBinary() (data []byte, err error) {
 
 func (e *ErrorMsg) UnmarshalBinary(data []byte) error {
 	next := 0
+	if len(data) < 12 {
+		return errors.New("the []byte is too short to unmarshal an ErrorMsg header")
+	}
 	e.Header.UnmarshalBinary(data[next:])
 	next += int(e.Header.Len())
 	e.Type = binary.BigEndian.Uint16(data[next:])
@@ -743,6 +766,11 @@ func (s *SwitchFeatures) MarshalBinary() (data []byte, err error) {
 func (s *SwitchFeatures) UnmarshalBinary(data []byte) error {
 	var err error
 	next := 0
+	if len(data) < 32 {
+		return errors.New("the []byte is too short to unmarshal a SwitchFeatures header")
+	}
+	s.DPID = make([]byte, 8)
+	s.pad = make([]byte, 2)
 
 	err = s.Header.UnmarshalBinary(data[next:])
 	next = int(s.Header.Len())
@@ -764,6 +792,10 @@ func (s *SwitchFeatures) UnmarshalBinary(data []byte) error {
 	for next < len(data) {
 		p := NewPhyPort()
 		err = p.UnmarshalBinary(data[next:])
+		if err != nil {
+			return err
+		}
+		s.Ports = append(s.Ports, *p)
 		next += int(p.Len())
 	}
 	return err
@@ -832,6 +864,9 @@ func (v *VendorHeader) UnmarshalBinary(data []byte) error {
 	n += 4
 	if n < int(v.Header.Length) {
 		var err error
+		if int(v.Header.Length) > len(data) {
+			return errors.New("the experimenter message length exceeds the []byte")
+		}
 		v.VendorData, err = decodeVendorData(v.ExperimenterType, data[n:v.Header.Length])
 		if err != nil {
 			return err
